@@ -55,3 +55,28 @@ package helpers
 //@   decreases n - k
 //@   induct hasAttrMono(as, key, k, n - 1)
 //@   ensures C03+C14.hasattr.mono: hasAttrUpTo(as, key, n)
+
+// ---- node helpers: frames (they only write nodes and attribute slices they allocate, or the node they are given) ----
+
+//@ func NewNode() (n)
+//@   modifies nothing
+//@   ensures C10.node.zero: fresh(n) && n != nil && n.Type == 0 && n.Data == "" && len(n.Attr) == 0 && n.FirstChild == nil &&
+//@     n.LastChild == nil && n.NextSibling == nil && n.PrevSibling == nil && n.Parent == nil && n.Namespace == ""
+//@ func CloneNode(n) (c)
+//@   modifies nothing
+//@   ensures C02.clone: fresh(c) && c != nil && c.Type == n.Type && c.Data == n.Data && c.Attr == n.Attr && c.FirstChild == nil && c.NextSibling == nil
+//@ func ShallowCloneWithAttrs(n) (c)
+//@   modifies nothing
+//@   ensures C02+C10.clone.attrs: fresh(c) && c != nil && c.Type == n.Type && c.Data == n.Data && len(c.Attr) == len(n.Attr) &&
+//@     (len(n.Attr) > 0 ==> fresh(c.Attr)) && forall i int :: 0 <= i && i < len(n.Attr) ==> c.Attr[i] == n.Attr[i]
+//@ func DeepCloneNode(n) (c)
+//@   modifies nothing
+//@   ensures C09+C10.clone.deep: fresh(c) && c != nil && c.Type == n.Type && c.Data == n.Data && len(c.Attr) == len(n.Attr) &&
+//@     (len(n.Attr) > 0 ==> fresh(c.Attr)) && forall i int :: 0 <= i && i < len(n.Attr) ==> c.Attr[i] == n.Attr[i]
+//@   loop 0 invariant C10.clone.prev: prev == nil || fresh(prev)
+//@ func SetAttr(n, key, value)
+//@   modifies n.Attr, elems(n.Attr)
+//@ func AppendAttr(n, key, value)
+//@   modifies n.Attr, elems(n.Attr)
+//@ func RemoveAttr(n, key)
+//@   modifies n.Attr
